@@ -49,6 +49,16 @@ def check(run):
                 haswin, winlen = True, x2 - x1 + 1
             p.append(dict(op=o, x1=x1, y1=y1, x2=x2, y2=y2, v=500 + j))
         plans.append(p)
+    # extreme coordinates (index arithmetic that wraps around must not land inside again): every coordinate of every call
+    HUGE = ["minint", "minint1", "maxint", "maxint1", "p62", "m62", "p61", "m61", "p60", "p32", "m32", "p31", "wrap", "inv1", "inv2", "inv3"]
+    shapes = [(4, 3), (3, 3), (8, 2), (16, 2), (5, 4), (1, 1), (64, 1), (7, 5), (2, 2), (0, 0), (3, 0), (0, 3)]
+    for (w, h) in (shapes if not run.quick() else shapes[:4] + run.rng.sample(shapes[4:], 3)):
+        p = [dict(op="Reset"), dict(op="New", w=w, h=h)]
+        for o, coords in (("Get", ("x1", "y1")), ("Set", ("x1", "y1")), ("Row", ("y1",)), ("RowSpan", ("x1", "x2", "y1")), ("Fill", ("x1", "y1", "x2", "y2"))):
+            for cn in coords:
+                for hk in HUGE:
+                    p.append(dict(op=o, x1=0, y1=0, x2=max(0, w - 1), y2=max(0, h - 1), v=900, huge={cn: hk}))
+        plans.append(p)
     segs = execute(run, plans)
     if len(segs) != len(plans):
         raise Inconclusive("driver returned %d segments for %d plans" % (len(segs), len(plans)))
@@ -59,7 +69,8 @@ def check(run):
                    rule="tour paths covering every edge of the TLC graph of Array2D.tla: every shape 0..%d x 0..%d, every "
                         "coordinate in -1..w / -1..h for Set/Get/Row/RowSpan/Fill (all 4-corner rectangles), every jagged "
                         "input with 0..h+1 rows of 0..w+1 values, windows written through, clones mutated; plus seeded "
-                        "sequences on shapes up to 9x9" % (m, m))
+                        "sequences on shapes up to 9x9; plus 64-bit extreme values (min/max, +-2^31..2^62, multiples of the width's modular "
+                        "inverse) for every coordinate of every call on 7-12 shapes" % (m, m))
     run.cov["samples"] = [segs[3][:4], segs[-1][:4]]
     run.assumptions += ["element type int", "RowSpan with x1 > x2 inside the bounds is outside the property and not driven"]
     return finish(run, reexec=lambda rej: execute(run, [rej["plan"]])[0])
